@@ -74,6 +74,8 @@ class Proc:
     def ask_many(self, lines, chunk=64):
         """Pipelined questions, answers in order (small chunks: no pipe deadlock)."""
         out = []
+        if lines and max(len(l) for l in lines) > 2000:
+            chunk = 1           # long questions have long answers: one at a time, or both pipes fill up
         for i in range(0, len(lines), chunk):
             part = lines[i:i + chunk]
             for l in part:
@@ -96,9 +98,14 @@ class Impl(Proc):
     def __init__(self, profile="debug"):
         Proc.__init__(self, [harness_bin(profile), "json"])
 
-    def scan(self, subs, ins, xors):
-        """SCAN on the current base text -> (accepted [(edit, content)], panics [edit], stats)."""
-        self.send("SCAN %s %s %s" % (bytes(subs).hex(), bytes(ins).hex(), bytes(xors).hex()))
+    def scan(self, subs, ins, xors, windows=None):
+        """SCAN on the current base text -> (accepted [(edit, content)], panics [edit], stats).
+        windows: optional list of (from, to) offset ranges the faults are restricted to."""
+        if windows is None:
+            self.send("SCAN %s %s %s" % (bytes(subs).hex(), bytes(ins).hex(), bytes(xors).hex()))
+        else:
+            self.send("SCANW %s %s %s %s" % (bytes(subs).hex(), bytes(ins).hex(), bytes(xors).hex(),
+                                             ",".join("%d-%d" % w for w in windows)))
         self.flush()
         acc, pan = [], []
         while True:
